@@ -446,3 +446,31 @@ Theorem C08_surf_sound_refuted_first_row :
   false_negative [(0, [None; Some (VInt 5)]); (1, [Some (VInt 0)])] OGt (VInt 1) SurfFirstRowLacksField.
 Proof. exact surf_refuted_first_row. Qed.
 Print Assumptions C08_surf_sound_refuted_first_row.
+
+(* ===================== part C ===================== *)
+(** C08, part C — the context index ([ZoneIndex]: event type -> context id -> zone ids, filled by
+    [ZoneWriter::write_all] on flush and compaction, asked by [find_candidate_zones] for
+    `FOR <context>` / `context_id = ...`).  Model: Model/CtxIndex.v; proofs: Proofs/CtxIndexProofs.v.
+    [zone_holds zps et c z]: some zone plan of the list has id [z], event type [et] and a row of
+    context [c] (the brute-force scan). *)
+From Snel Require Model.CtxIndex Proofs.CtxIndexProofs.
+
+(** A probe by context reports every zone holding a row of the context: all lists of zone plans
+    (any ids, any order, repeated ids, any row counts, contexts straddling zone boundaries or
+    recurring in non-adjacent zones, several event types). *)
+Theorem C08c_ctx_probe_sound : forall zps et c z,
+  CtxIndex.zone_holds zps et c z -> In z (CtxIndex.find (CtxIndex.build zps) et (Some c)).
+Proof. exact CtxIndexProofs.ctx_probe_sound. Qed.
+Print Assumptions C08c_ctx_probe_sound.
+
+(** A probe without a context reports every zone holding any row of the event type. *)
+Theorem C08c_ctx_probe_none_sound : forall zps et c z,
+  CtxIndex.zone_holds zps et c z -> In z (CtxIndex.find (CtxIndex.build zps) et None).
+Proof. exact CtxIndexProofs.ctx_probe_none_sound. Qed.
+Print Assumptions C08c_ctx_probe_none_sound.
+
+(** The modelled index is exact: a zone is reported for a context iff it holds a row of it. *)
+Theorem C08c_ctx_probe_exact : forall zps et c z,
+  In z (CtxIndex.find (CtxIndex.build zps) et (Some c)) <-> CtxIndex.zone_holds zps et c z.
+Proof. exact CtxIndexProofs.ctx_probe_exact. Qed.
+Print Assumptions C08c_ctx_probe_exact.
